@@ -36,7 +36,7 @@ LEVEL_TEXT = ("Complete enumeration of the kind-presence table (the dispatch mat
               "shape up to 4 positionals and 5 keyword names, for bind and wrap over four callable flavours, plus "
               "random signatures with several parameters per kind. Exhaustive for the table, exploration beyond it.")
 LEVEL_NOTE = "trusts inspect.Signature.bind as the model of which calls Python accepts"
-EXHAUSTIVE_NOTE = "32 kind rows x {no defaults, defaults} x 4 flavours x {bind, wrap} x 160 candidate calls, all enumerated on every run"
+EXHAUSTIVE_NOTE = "32 kind rows x {no defaults, defaults} x {annotation objects, postponed annotation text in another module} x 4 flavours x {bind, wrap} x 160 candidate calls, all enumerated on every run"
 
 bind = tl.typelib.binding.bind
 wrap = tl.typelib.binding.wrap
@@ -68,8 +68,18 @@ def sig_text(params):
     return ", ".join(out)
 
 
-def make_callables(params, tag):
-    """-> {flavour: (callable_for_bind_or_wrap, signature_target, kind)}"""
+# annotations that only the defining module can resolve (names it imported or defined), for modules whose annotations are text
+ANN_LOCAL = {"po": "Num", "pk": "float", "va": "Dec", "ko": "Frac", "vk": "Label"}
+POSTPONED_HEADER = ("import typing\nfrom decimal import Decimal as Dec\nfrom fractions import Fraction as Frac\n"
+                    "Num = int\nLabel = typing.NewType('Label', str)\n")
+
+
+def make_callables(params, tag, postponed=False):
+    """-> {flavour: (callable_for_bind_or_wrap, signature_target, kind)}
+
+    postponed: the callables live in a real module (registered, with a file name) compiled under `from __future__ import
+    annotations`; their annotations are text naming things only that module binds, and every call is issued from here -
+    another module."""
     text = sig_text(params)
     names = [n for n, _, _, _ in params]
     rec = "{" + ", ".join(f"{n!r}: {n}" for n in names) + "}"
@@ -101,6 +111,16 @@ class Raw:
     def __init__(self{sep}{text}):
         self.rec = {rec}
 '''
+    if postponed:
+        import __future__ as _f
+        import sys as _sys
+        import types as _types
+        m = _types.ModuleType(f"c10post_{tag}")
+        m.__file__ = f"/nonexistent/{m.__name__}.py"
+        _sys.modules[m.__name__] = m
+        m.__dict__.update({k: v for k, v in NS.items()})
+        exec(compile(POSTPONED_HEADER + src, m.__file__, "exec", flags=_f.annotations.compiler_flag, dont_inherit=True), m.__dict__)  # noqa: S102
+        return m.__dict__, text
     ns = dict(NS)
     ns["__name__"] = f"c10mod_{tag}"
     exec(src, ns)  # noqa: S102
@@ -167,24 +187,24 @@ def observe(flavour, api, ns):
     if flavour == "function":
         f = ns["fn"]
         target = bind(f) if api == "bind" else wrap(f)
-        return (lambda a, k: _ret(tl.call(target, *a, **k))), inspect.signature(f), f, target
+        return (lambda a, k: _ret(tl.call(target, *a, **k))), inspect.signature(f, eval_str=True), f, target
     if flavour == "method":
         o = ns["Meth"]()
         f = o.m
         target = bind(f) if api == "bind" else wrap(f)
-        return (lambda a, k: _ret(tl.call(target, *a, **k))), inspect.signature(f), f, target
+        return (lambda a, k: _ret(tl.call(target, *a, **k))), inspect.signature(f, eval_str=True), f, target
     if flavour == "instance":
         f = ns["Inst"]()
         target = bind(f) if api == "bind" else wrap(f)
-        return (lambda a, k: _ret(tl.call(target, *a, **k))), inspect.signature(f), f, target
+        return (lambda a, k: _ret(tl.call(target, *a, **k))), inspect.signature(f, eval_str=True), f, target
     if flavour == "class":
         if api == "bind":
             c = ns["Cls2"]
-            sig = inspect.signature(c)
+            sig = inspect.signature(c, eval_str=True)
             target = bind(c)
         else:
             c = ns["Cls"]
-            sig = inspect.signature(c)  # taken before wrap patches __init__
+            sig = inspect.signature(c, eval_str=True)  # taken before wrap patches __init__
             target = wrap(c)
 
         def inv(a, k):
@@ -208,8 +228,17 @@ def _ret(r):
     return r
 
 
-def check_calls(params, tag, calls, col, flavours=("function", "method", "instance", "class"), source="table"):
-    ns, text = make_callables(params, tag)
+def check_calls(params, tag, calls, col, flavours=("function", "method", "instance", "class"), source="table", postponed=False):
+    ns, text = make_callables(params, tag, postponed)
+    try:
+        _check_calls(params, ns, text, calls, col, flavours, postponed)
+    finally:
+        if postponed:
+            import sys as _sys
+            _sys.modules.pop(ns["__name__"], None)
+
+
+def _check_calls(params, ns, text, calls, col, flavours, postponed):
     for flavour in flavours:
         for api in ("bind", "wrap"):
             tl.clear_all()
@@ -219,14 +248,16 @@ def check_calls(params, tag, calls, col, flavours=("function", "method", "instan
                 inv, sig, orig, target = observe(flavour, api, ns)
             except Exception as e:  # construction must work for any signature
                 col.ev()
-                col.violation("construct", {"params": params, "flavour": flavour, "api": api, "args": [], "kwargs": {}},
+                col.violation("construct", {"params": params, "flavour": flavour, "api": api, "args": [], "kwargs": {}, "postponed": postponed},
                               f"{api}({flavour}) raised {tl.exc_name(e)}: {e}", bucket=f"{flavour}|{api}")
                 continue
             if api == "wrap":
                 check_metadata(flavour, orig, target, params, col)
             for a, k in calls:
                 col.ev()
-                case = {"params": params, "flavour": flavour, "api": api, "args": list(a), "kwargs": dict(k)}
+                case = {"params": params, "flavour": flavour, "api": api, "args": list(a), "kwargs": dict(k), "postponed": postponed}
+                if postponed:
+                    col.label("annotations:postponed-text-resolvable-in-defining-module-only")
                 exp = expected(sig, a, k, raw)
                 if exp[0] == "skip":
                     col.label("skipped:Signature.bind-and-interpreter-disagree")
@@ -277,14 +308,15 @@ def check_metadata(flavour, orig, target, params, col):
 KINDS = ["po", "pk", "va", "ko", "vk"]
 
 
-def table_rows():
+def table_rows(ann=None):
+    ann = ann or ANN
     for mask in itertools.product([False, True], repeat=5):
         present = [k for k, m in zip(KINDS, mask) if m]
         for defaults in (False, True):
             params = []
             for k in present:
                 d = f"d_{k}" if (defaults and k in ("po", "pk", "ko")) else None
-                params.append((k, k, ANN[k], d))
+                params.append((k, k, ann[k], d))
             yield params
 
 
@@ -405,6 +437,7 @@ def check_class_histories(col):
 def plan(tier, seed):
     rows = list(table_rows())
     shards = [{"kind": "table", "lo": i, "hi": i + 8} for i in range(0, len(rows), 8)]
+    shards += [{"kind": "table", "lo": i, "hi": i + 8, "postponed": True} for i in range(0, len(rows), 8)]
     n = 150 if tier == "quick" else 3000
     for k in range(8):
         shards.append({"kind": "random", "seed": seed * 1000 + k, "n": n})
@@ -417,10 +450,11 @@ def run_shard(shard, col):
         check_class_histories(col)
         return
     if shard["kind"] == "table":
-        rows = list(table_rows())[shard["lo"]:shard["hi"]]
+        post = bool(shard.get("postponed"))
+        rows = list(table_rows(ANN_LOCAL if post else None))[shard["lo"]:shard["hi"]]
         calls = candidate_calls()
         for i, params in enumerate(rows):
-            check_calls(params, f"t{shard['lo'] + i}", calls, col)
+            check_calls(params, f"t{shard['lo'] + i}", calls, col, postponed=post)
         col.exhaustive_done = True
         return
     counter = itertools.count()
@@ -441,9 +475,8 @@ def replay(clause, case, col):
         calls = []
     else:
         calls = [(tuple(case["args"]), dict(case["kwargs"]))]
-    ns, _ = make_callables(params, "replay")
     # restrict to the recorded flavour; both apis are cheap, run the recorded one first
-    check_calls(params, "replay", calls, col, flavours=(case["flavour"],), source="replay")
+    check_calls(params, "replay", calls, col, flavours=(case["flavour"],), source="replay", postponed=bool(case.get("postponed")))
 
 
 def cg_plan(seed):
